@@ -358,7 +358,11 @@ def _apply_macros(body_lines, macros) -> List[str]:
     if len(body_lines) == 0:
         return []
     body = "\n".join(body_lines)
-    for macro_key, macro_value in macros:
+    # Substitute longer keys first, such that a key which is a prefix of another key
+    # (e.g. `idx` and `idx2`) does not corrupt references to the longer one.
+    for macro_key, macro_value in sorted(
+        macros, key=lambda macro: len(macro[0]), reverse=True
+    ):
         macro_value = macro_value.strip(Symbols.PREAMBLE_DEFINE_BRACKETS)
         body = body.replace(f"{Symbols.MACRO_START}{macro_key}", macro_value)
     return list(body.split("\n"))
